@@ -562,7 +562,8 @@ fn main() {
     let (h2, st2) = dx::s2(&mut hsink, 65535, false);
     // hand-built raw records of about 10 MiB as first fragments ("any sequence of calls")
     let (_h4, st4) = dx::s4(&mut hsink);
-    hist_trans += st1 + st2 + st4;
+    let (_h5, st5) = dx::s5(&mut hsink, false);
+    hist_trans += st1 + st2 + st4 + st5;
     let _ = (h1, h2);
     for v in hsink.viol {
         if v.what.contains("panic") || v.what.contains(">= 10 MiB") || v.what.contains("buffer holds") {
